@@ -695,13 +695,72 @@ pub fn ser_checked_hex<T: Encodable + std::fmt::Debug>(x: &T) -> String {
         Err(m) => m.to_string(),
     }
 }
+/// a reader that hands out at most `n` bytes per call (short reads in the middle of a field)
+pub struct DripN<'a> {
+    pub b: &'a [u8],
+    pub pos: usize,
+    pub n: usize,
+}
+impl<'a> std::io::Read for DripN<'a> {
+    fn read(&mut self, out: &mut [u8]) -> std::io::Result<usize> {
+        let k = out.len().min(self.n).min(self.b.len() - self.pos);
+        out[..k].copy_from_slice(&self.b[self.pos..self.pos + k]);
+        self.pos += k;
+        Ok(k)
+    }
+}
 pub fn readers_agree<T: Decodable + std::fmt::Debug>(b: &[u8], r: &Result<(T, usize), monero::consensus::encode::Error>) -> bool {
     let mut d = Drip { b, pos: 0 };
-    match (T::consensus_decode(&mut d), r) {
+    let one = match (T::consensus_decode(&mut d), r) {
         (Ok(y), Ok((x, n))) => d.pos == *n && format!("{:?}", y) == format!("{:?}", x),
         (Err(_), Err(_)) => true,
         _ => false,
+    };
+    if !one {
+        return false;
     }
+    for n in [7usize, 4096] {
+        let mut d = DripN { b, pos: 0, n };
+        let ok = match (T::consensus_decode(&mut d), r) {
+            (Ok(y), Ok((x, k))) => d.pos == *k && format!("{:?}", y) == format!("{:?}", x),
+            (Err(_), Err(_)) => true,
+            _ => false,
+        };
+        if !ok {
+            return false;
+        }
+    }
+    true
+}
+thread_local! { static READER_MISMATCH: std::cell::Cell<bool> = std::cell::Cell::new(false); }
+/// set by `dp` / `ds` when the slice route and a reader route of a decoder disagree; main replaces the case's answer
+pub fn take_reader_mismatch() -> bool {
+    READER_MISMATCH.with(|c| c.replace(false))
+}
+/// deserialize_partial with the reader routes run beside it
+pub fn dp<T: Decodable + std::fmt::Debug>(b: &[u8]) -> Result<(T, usize), monero::consensus::encode::Error> {
+    let r = deserialize_partial::<T>(b);
+    if !readers_agree(b, &r) {
+        READER_MISMATCH.with(|c| c.set(true));
+    }
+    r
+}
+/// deserialize (strict) with the reader routes run beside it
+pub fn ds<T: Decodable + std::fmt::Debug>(b: &[u8]) -> Result<T, monero::consensus::encode::Error> {
+    let r = deserialize::<T>(b);
+    for n in [1usize, 7, 4096] {
+        let mut d = DripN { b, pos: 0, n };
+        let ok = match (T::consensus_decode(&mut d), &r) {
+            (Ok(y), Ok(x)) => d.pos == b.len() && format!("{:?}", y) == format!("{:?}", x),
+            (Err(_), Err(_)) => true,
+            (Ok(_), Err(_)) => d.pos != b.len(),
+            (Err(_), Ok(_)) => false,
+        };
+        if !ok {
+            READER_MISMATCH.with(|c| c.set(true));
+        }
+    }
+    r
 }
 
 // ------------------------------------------------------------------ ops, generic in the type
@@ -730,7 +789,12 @@ where
             }
             Some(match r {
                 Ok((x, n)) => {
-                    let ser = monero::consensus::encode::serialize(&x);
+                    // the parsed value goes back through the encoder with its contract checked (reported length, every
+                    // writer): the bytes a parsed object commits to must not depend on where they are written
+                    let ser = match ser_checked(&x) {
+                        Ok(b) => b,
+                        Err(m) => return Some(m.to_string()),
+                    };
                     if monero::consensus::encode::serialize_hex(&x) != hex::encode(&ser) {
                         return Some("SERIALIZE-HEX-MISMATCH".into());
                     }
@@ -783,7 +847,11 @@ where
             if !writers_agree(unwrap(&w), &buf, len) {
                 return Some("WRITER-MISMATCH".into());
             }
-            let back = match deserialize_partial::<T>(&buf) {
+            let r = deserialize_partial::<T>(&buf);
+            if !readers_agree(&buf, &r) {
+                return Some("READER-MISMATCH".into());
+            }
+            let back = match r {
                 Ok((x, n)) => format!("{} {}", (show(&wrap(x)) == orig) as u8, n),
                 Err(e) => crate::err_shown(&e),
             };
